@@ -24,7 +24,7 @@ pub(super) fn exact(e: i128) -> Exp {
 // Runs one step of `instr` (already placed at pc 0 of `t`) and checks the
 // outcome against `exp` and the stack model `model` (the expected stack after
 // operand fetch, before the result is stored).
-pub(super) fn check_step(t: &mut VmGreenThread, mut model: Vec<Value>, dm: M, od: i16, exp: Exp) {
+pub(super) fn check_step(t: &mut VmGreenThread, mut model: Vec<Value>, dm: M, od: i16, exp: Exp, can_err: bool) {
     t.pc.0 = 0;
     let cont = t.step();
     match exp {
@@ -34,12 +34,15 @@ pub(super) fn check_step(t: &mut VmGreenThread, mut model: Vec<Value>, dm: M, od
             assert!(t.error.is_none(), "no error expected");
             assert!(t.pc.0 == 1, "pc advances by one");
             assert!(same_stack(&t.value_stack, &model), "stack after the step matches the model");
-            kani::cover!(true, "success outcome reachable");
+            kani::cover!(true, "req: success outcome reachable");
         }
         Exp::Err(k) => {
+            assert!(can_err, "this arm has no error outcome in the specification");
             assert!(!cont, "arm must stop on a runtime error");
             assert!(err_code(t) == k, "documented error kind");
-            kani::cover!(true, "error outcome reachable");
+            if can_err {
+                kani::cover!(true, "req: error outcome reachable");
+            }
         }
     }
     assert!(t.pending_host_func.is_none() && !t.done);
@@ -47,7 +50,7 @@ pub(super) fn check_step(t: &mut VmGreenThread, mut model: Vec<Value>, dm: M, od
 
 // dest, reg1, reg2 arm over one operand tag.
 macro_rules! arm3 {
-    ($name:ident, $variant:ident, $tag:expr, $dm:expr, $m1:expr, $m2:expr, |$a:ident, $b:ident| $spec:expr) => {
+    ($name:ident, $variant:ident, $tag:expr, $dm:expr, $m1:expr, $m2:expr, $ce:expr, |$a:ident, $b:ident| $spec:expr) => {
         vm_harness! {
             #[kani::unwind(9)]
             fn $name() {
@@ -66,7 +69,7 @@ macro_rules! arm3 {
                 let $a = va;
                 let $b = vb;
                 let exp: Exp = $spec;
-                check_step(&mut t, model, $dm, od, exp);
+                check_step(&mut t, model, $dm, od, exp, $ce);
                 std::mem::forget(t);
             }
         }
@@ -75,7 +78,7 @@ macro_rules! arm3 {
 
 // dest, reg1, int immediate (symbolic 3-entry constant table, concrete index)
 macro_rules! arm_imm_int {
-    ($name:ident, $variant:ident, $dm:expr, $m1:expr, |$a:ident, $b:ident| $spec:expr) => {
+    ($name:ident, $variant:ident, $dm:expr, $m1:expr, $ce:expr, |$a:ident, $b:ident| $spec:expr) => {
         vm_harness! {
             #[kani::unwind(9)]
             fn $name() {
@@ -96,7 +99,7 @@ macro_rules! arm_imm_int {
                 let $a = va;
                 let $b = Value::from(consts[ci as usize]);
                 let exp: Exp = $spec;
-                check_step(&mut t, model, $dm, od, exp);
+                check_step(&mut t, model, $dm, od, exp, $ce);
                 std::mem::forget(t);
             }
         }
@@ -111,55 +114,55 @@ pub(super) fn bv(b: bool) -> Exp {
 }
 
 // ---------- + - * : exact or overflow ----------
-arm3!(c15_add_ttt, AddInt, ValueTag::Int, T, T, T, |a, b| exact(iv(a) + iv(b)));
-arm3!(c15_add_ott, AddInt, ValueTag::Int, O, T, T, |a, b| exact(iv(a) + iv(b)));
-arm3!(c15_add_tto, AddInt, ValueTag::Int, T, T, O, |a, b| exact(iv(a) + iv(b)));
-arm3!(c15_add_too, AddInt, ValueTag::Int, T, O, O, |a, b| exact(iv(a) + iv(b)));
-arm3!(c15_add_oto, AddInt, ValueTag::Int, O, T, O, |a, b| exact(iv(a) + iv(b)));
-arm3!(c15_add_ooo, AddInt, ValueTag::Int, O, O, O, |a, b| exact(iv(a) + iv(b)));
-arm3!(c15_sub_ttt, SubtractInt, ValueTag::Int, T, T, T, |a, b| exact(iv(a) - iv(b)));
-arm3!(c15_sub_ott, SubtractInt, ValueTag::Int, O, T, T, |a, b| exact(iv(a) - iv(b)));
-arm3!(c15_sub_tto, SubtractInt, ValueTag::Int, T, T, O, |a, b| exact(iv(a) - iv(b)));
-arm3!(c15_sub_too, SubtractInt, ValueTag::Int, T, O, O, |a, b| exact(iv(a) - iv(b)));
-arm3!(c15_sub_oto, SubtractInt, ValueTag::Int, O, T, O, |a, b| exact(iv(a) - iv(b)));
-arm3!(c15_sub_ooo, SubtractInt, ValueTag::Int, O, O, O, |a, b| exact(iv(a) - iv(b)));
-arm3!(c15_mul_ttt, MulInt, ValueTag::Int, T, T, T, |a, b| exact(iv(a) * iv(b)));
-arm3!(c15_mul_ooo, MulInt, ValueTag::Int, O, O, O, |a, b| exact(iv(a) * iv(b)));
-arm3!(c15_mul_tto, MulInt, ValueTag::Int, T, T, O, |a, b| exact(iv(a) * iv(b)));
-arm_imm_int!(c15_addimm_tt, AddIntImm, T, T, |a, b| exact(iv(a) + iv(b)));
-arm_imm_int!(c15_addimm_to, AddIntImm, T, O, |a, b| exact(iv(a) + iv(b)));
-arm_imm_int!(c15_addimm_ot, AddIntImm, O, T, |a, b| exact(iv(a) + iv(b)));
-arm_imm_int!(c15_addimm_oo, AddIntImm, O, O, |a, b| exact(iv(a) + iv(b)));
-arm_imm_int!(c15_subimm_tt, SubIntImm, T, T, |a, b| exact(iv(a) - iv(b)));
-arm_imm_int!(c15_subimm_to, SubIntImm, T, O, |a, b| exact(iv(a) - iv(b)));
-arm_imm_int!(c15_subimm_oo, SubIntImm, O, O, |a, b| exact(iv(a) - iv(b)));
-arm_imm_int!(c15_mulimm_tt, MulIntImm, T, T, |a, b| exact(iv(a) * iv(b)));
-arm_imm_int!(c15_mulimm_oo, MulIntImm, O, O, |a, b| exact(iv(a) * iv(b)));
+arm3!(c15_add_ttt, AddInt, ValueTag::Int, T, T, T, true, |a, b| exact(iv(a) + iv(b)));
+arm3!(c15_add_ott, AddInt, ValueTag::Int, O, T, T, true, |a, b| exact(iv(a) + iv(b)));
+arm3!(c15_add_tto, AddInt, ValueTag::Int, T, T, O, true, |a, b| exact(iv(a) + iv(b)));
+arm3!(c15_add_too, AddInt, ValueTag::Int, T, O, O, true, |a, b| exact(iv(a) + iv(b)));
+arm3!(c15_add_oto, AddInt, ValueTag::Int, O, T, O, true, |a, b| exact(iv(a) + iv(b)));
+arm3!(c15_add_ooo, AddInt, ValueTag::Int, O, O, O, true, |a, b| exact(iv(a) + iv(b)));
+arm3!(c15_sub_ttt, SubtractInt, ValueTag::Int, T, T, T, true, |a, b| exact(iv(a) - iv(b)));
+arm3!(c15_sub_ott, SubtractInt, ValueTag::Int, O, T, T, true, |a, b| exact(iv(a) - iv(b)));
+arm3!(c15_sub_tto, SubtractInt, ValueTag::Int, T, T, O, true, |a, b| exact(iv(a) - iv(b)));
+arm3!(c15_sub_too, SubtractInt, ValueTag::Int, T, O, O, true, |a, b| exact(iv(a) - iv(b)));
+arm3!(c15_sub_oto, SubtractInt, ValueTag::Int, O, T, O, true, |a, b| exact(iv(a) - iv(b)));
+arm3!(c15_sub_ooo, SubtractInt, ValueTag::Int, O, O, O, true, |a, b| exact(iv(a) - iv(b)));
+arm3!(c15_mul_ttt, MulInt, ValueTag::Int, T, T, T, true, |a, b| exact(iv(a) * iv(b)));
+arm3!(c15_mul_ooo, MulInt, ValueTag::Int, O, O, O, true, |a, b| exact(iv(a) * iv(b)));
+arm3!(c15_mul_tto, MulInt, ValueTag::Int, T, T, O, true, |a, b| exact(iv(a) * iv(b)));
+arm_imm_int!(c15_addimm_tt, AddIntImm, T, T, true, |a, b| exact(iv(a) + iv(b)));
+arm_imm_int!(c15_addimm_to, AddIntImm, T, O, true, |a, b| exact(iv(a) + iv(b)));
+arm_imm_int!(c15_addimm_ot, AddIntImm, O, T, true, |a, b| exact(iv(a) + iv(b)));
+arm_imm_int!(c15_addimm_oo, AddIntImm, O, O, true, |a, b| exact(iv(a) + iv(b)));
+arm_imm_int!(c15_subimm_tt, SubIntImm, T, T, true, |a, b| exact(iv(a) - iv(b)));
+arm_imm_int!(c15_subimm_to, SubIntImm, T, O, true, |a, b| exact(iv(a) - iv(b)));
+arm_imm_int!(c15_subimm_oo, SubIntImm, O, O, true, |a, b| exact(iv(a) - iv(b)));
+arm_imm_int!(c15_mulimm_tt, MulIntImm, T, T, true, |a, b| exact(iv(a) * iv(b)));
+arm_imm_int!(c15_mulimm_oo, MulIntImm, O, O, true, |a, b| exact(iv(a) * iv(b)));
 
 // wrapping / xor (used by the prelude's hashing; C24/C27 rely on them)
-arm3!(c15_xor_ttt, BitXor, ValueTag::Int, T, T, T, |a, b| Exp::Val(Value::from((a.0 ^ b.0) as i64)));
-arm3!(c15_wadd_ttt, WrappingAdd, ValueTag::Int, T, T, T, |a, b| Exp::Val(Value::from(
+arm3!(c15_xor_ttt, BitXor, ValueTag::Int, T, T, T, false, |a, b| Exp::Val(Value::from((a.0 ^ b.0) as i64)));
+arm3!(c15_wadd_ttt, WrappingAdd, ValueTag::Int, T, T, T, false, |a, b| Exp::Val(Value::from(
     ((iv(a) + iv(b)) as u128 as u64) as i64
 )));
-arm3!(c15_wmul_ttt, WrappingMul, ValueTag::Int, T, T, T, |a, b| Exp::Val(Value::from(
+arm3!(c15_wmul_ttt, WrappingMul, ValueTag::Int, T, T, T, false, |a, b| Exp::Val(Value::from(
     ((iv(a) * iv(b)) as u128 as u64) as i64
 )));
 
 // ---------- integer comparisons ----------
-arm3!(c15_lt_ttt, LessThanInt, ValueTag::Int, T, T, T, |a, b| bv(iv(a) < iv(b)));
-arm3!(c15_lt_too, LessThanInt, ValueTag::Int, T, O, O, |a, b| bv(iv(a) < iv(b)));
-arm3!(c15_le_ttt, LessThanOrEqualInt, ValueTag::Int, T, T, T, |a, b| bv(iv(a) <= iv(b)));
-arm3!(c15_gt_ttt, GreaterThanInt, ValueTag::Int, T, T, T, |a, b| bv(iv(a) > iv(b)));
-arm3!(c15_gt_tto, GreaterThanInt, ValueTag::Int, T, T, O, |a, b| bv(iv(a) > iv(b)));
-arm3!(c15_ge_ttt, GreaterThanOrEqualInt, ValueTag::Int, T, T, T, |a, b| bv(iv(a) >= iv(b)));
-arm3!(c15_eq_ttt, EqualInt, ValueTag::Int, T, T, T, |a, b| bv(iv(a) == iv(b)));
-arm3!(c15_eq_oto, EqualInt, ValueTag::Int, O, T, O, |a, b| bv(iv(a) == iv(b)));
-arm_imm_int!(c15_ltimm_tt, LessThanIntImm, T, T, |a, b| bv(iv(a) < iv(b)));
-arm_imm_int!(c15_leimm_tt, LessThanOrEqualIntImm, T, T, |a, b| bv(iv(a) <= iv(b)));
-arm_imm_int!(c15_gtimm_tt, GreaterThanIntImm, T, T, |a, b| bv(iv(a) > iv(b)));
-arm_imm_int!(c15_geimm_to, GreaterThanOrEqualIntImm, T, O, |a, b| bv(iv(a) >= iv(b)));
-arm_imm_int!(c15_eqimm_tt, EqualIntImm, T, T, |a, b| bv(iv(a) == iv(b)));
-arm_imm_int!(c15_eqimm_oo, EqualIntImm, O, O, |a, b| bv(iv(a) == iv(b)));
+arm3!(c15_lt_ttt, LessThanInt, ValueTag::Int, T, T, T, false, |a, b| bv(iv(a) < iv(b)));
+arm3!(c15_lt_too, LessThanInt, ValueTag::Int, T, O, O, false, |a, b| bv(iv(a) < iv(b)));
+arm3!(c15_le_ttt, LessThanOrEqualInt, ValueTag::Int, T, T, T, false, |a, b| bv(iv(a) <= iv(b)));
+arm3!(c15_gt_ttt, GreaterThanInt, ValueTag::Int, T, T, T, false, |a, b| bv(iv(a) > iv(b)));
+arm3!(c15_gt_tto, GreaterThanInt, ValueTag::Int, T, T, O, false, |a, b| bv(iv(a) > iv(b)));
+arm3!(c15_ge_ttt, GreaterThanOrEqualInt, ValueTag::Int, T, T, T, false, |a, b| bv(iv(a) >= iv(b)));
+arm3!(c15_eq_ttt, EqualInt, ValueTag::Int, T, T, T, false, |a, b| bv(iv(a) == iv(b)));
+arm3!(c15_eq_oto, EqualInt, ValueTag::Int, O, T, O, false, |a, b| bv(iv(a) == iv(b)));
+arm_imm_int!(c15_ltimm_tt, LessThanIntImm, T, T, false, |a, b| bv(iv(a) < iv(b)));
+arm_imm_int!(c15_leimm_tt, LessThanOrEqualIntImm, T, T, false, |a, b| bv(iv(a) <= iv(b)));
+arm_imm_int!(c15_gtimm_tt, GreaterThanIntImm, T, T, false, |a, b| bv(iv(a) > iv(b)));
+arm_imm_int!(c15_geimm_to, GreaterThanOrEqualIntImm, T, O, false, |a, b| bv(iv(a) >= iv(b)));
+arm_imm_int!(c15_eqimm_tt, EqualIntImm, T, T, false, |a, b| bv(iv(a) == iv(b)));
+arm_imm_int!(c15_eqimm_oo, EqualIntImm, O, O, false, |a, b| bv(iv(a) == iv(b)));
 
 // ---------- / % ^ through contract stubs of the std primitive ----------
 pub(super) static mut G_N: u32 = 0; // number of calls to the stubbed primitive
@@ -313,7 +316,7 @@ pub(super) fn check_step_post(
     t.pc.0 = 0;
     let cont = t.step();
     let Some(exp) = oracle(a, b) else {
-        kani::cover!(true, "undecided by the contract stub");
+        kani::cover!(true, "info: undecided by the contract stub");
         return;
     };
     match exp {
@@ -323,14 +326,15 @@ pub(super) fn check_step_post(
             assert!(t.error.is_none(), "no error expected");
             assert!(t.pc.0 == 1);
             assert!(same_stack(&t.value_stack, &model), "result and stack match the model");
-            kani::cover!(true, "success outcome reachable");
+            kani::cover!(true, "req: success outcome reachable");
         }
         Exp::Err(k) => {
             assert!(k != EK_INTERNAL, "std primitive called with operands other than (a, b)");
             assert!(!cont, "arm must stop on a runtime error");
             assert!(err_code(t) == k, "documented error kind for this cause");
-            kani::cover!(k == EK_DIVZERO, "division-by-zero outcome reachable");
-            kani::cover!(k == EK_OVERFLOW, "overflow outcome reachable");
+            kani::cover!(k == EK_DIVZERO, "info: division-by-zero outcome reachable");
+            kani::cover!(true, "req: error outcome reachable");
+            kani::cover!(k == EK_OVERFLOW, "info: overflow outcome reachable");
         }
     }
 }
@@ -428,10 +432,10 @@ vm_harness! {
         let cont = t.step();
         if b == 0 {
             assert!(!cont && err_code(&t) == EK_DIVZERO, "zero divisor -> division by zero");
-            kani::cover!(true, "div by zero");
+            kani::cover!(true, "req: div by zero");
         } else if a == i64::MIN && b == -1 {
             assert!(!cont && err_code(&t) == EK_OVERFLOW, "MIN / -1 -> overflow");
-            kani::cover!(true, "overflow");
+            kani::cover!(true, "req: overflow");
         } else {
             assert!(cont && t.error.is_none() && t.value_stack.len() == 1);
             let q = t.value_stack[0].0 as i64 as i128;
@@ -441,7 +445,7 @@ vm_harness! {
             // truncation toward zero: |r| < |b| and r has the sign of a (or is 0)
             assert!(r < absb && r > -absb, "remainder magnitude below divisor");
             assert!(r == 0 || (r < 0) == (a < 0), "truncation toward zero");
-            kani::cover!(r != 0 && a < 0, "inexact negative quotient");
+            kani::cover!(r != 0 && a < 0, "req: inexact negative quotient");
         }
         std::mem::forget(t);
     }
@@ -457,7 +461,7 @@ vm_harness! {
         let cont = t.step();
         if b == 0 {
             assert!(!cont && err_code(&t) == EK_DIVZERO, "zero divisor -> division by zero");
-            kani::cover!(true, "div by zero");
+            kani::cover!(true, "req: div by zero");
         } else {
             assert!(cont && t.error.is_none() && t.value_stack.len() == 1, "remainder is defined for every non-zero divisor");
             assert!(t.value_stack[0].1 == ValueTag::Int);
@@ -468,8 +472,8 @@ vm_harness! {
             let m = a.wrapping_rem(b) as i128;
             let r_ref = if m < 0 { m + absb } else { m };
             assert!(r == r_ref, "r == a mod |b|");
-            kani::cover!(a < 0 && r > 0, "negative dividend with positive remainder");
-            kani::cover!(a == i64::MIN && b == -1, "MIN % -1 defined");
+            kani::cover!(a < 0 && r > 0, "req: negative dividend with positive remainder");
+            kani::cover!(a == i64::MIN && b == -1, "req: MIN % -1 defined");
         }
         std::mem::forget(t);
     }
